@@ -64,7 +64,11 @@ type Interp struct {
 	prefix    []int32
 	pos       int
 	decisions []int32
-	siblings  [][]int32
+	siblings  []workItem
+	model     map[string]uint64
+	modelMemo map[int]uint64
+	fb        map[int]bool
+	fv        map[int]uint64
 	unknownFeas bool
 
 	globals  map[*ssa.Global]*Cell
@@ -109,6 +113,168 @@ func (in *Interp) addPC(t *Term) {
 	}
 	in.pc = append(in.pc, t)
 	in.sol.Assert(t)
+	in.recordFact(t, true)
+	if in.model != nil && EvalTerm(t, in.model, in.modelMemo) != 1 {
+		in.model = nil
+	}
+}
+
+func (in *Interp) setModel(m map[string]uint64) {
+	in.model = m
+	in.modelMemo = make(map[int]uint64, 64)
+}
+
+// recordFact: cheap constant propagation from asserted literals.
+func (in *Interp) recordFact(t *Term, val bool) {
+	if t.IsConst() {
+		return
+	}
+	in.fb[t.ID] = val
+	switch t.Op {
+	case OpNot:
+		in.recordFact(t.A[0], !val)
+	case OpAnd:
+		if val {
+			in.recordFact(t.A[0], true)
+			in.recordFact(t.A[1], true)
+		}
+	case OpOr:
+		if !val {
+			in.recordFact(t.A[0], false)
+			in.recordFact(t.A[1], false)
+		}
+	case OpEq:
+		if val && t.A[0].W > 0 {
+			if t.A[0].IsConst() {
+				in.fv[t.A[1].ID] = t.A[0].Val
+			} else if t.A[1].IsConst() {
+				in.fv[t.A[0].ID] = t.A[1].Val
+			}
+		}
+	}
+}
+
+// triBool evaluates t under the recorded facts; known=false if undetermined.
+func (in *Interp) triBool(t *Term, depth int) (val bool, known bool) {
+	if t.IsConst() {
+		return t.Val == 1, true
+	}
+	if v, ok := in.fb[t.ID]; ok {
+		return v, true
+	}
+	if depth > 12 {
+		return false, false
+	}
+	switch t.Op {
+	case OpNot:
+		v, k := in.triBool(t.A[0], depth+1)
+		return !v, k
+	case OpAnd:
+		a, ka := in.triBool(t.A[0], depth+1)
+		if ka && !a {
+			return false, true
+		}
+		b, kb := in.triBool(t.A[1], depth+1)
+		if kb && !b {
+			return false, true
+		}
+		return true, ka && kb
+	case OpOr:
+		a, ka := in.triBool(t.A[0], depth+1)
+		if ka && a {
+			return true, true
+		}
+		b, kb := in.triBool(t.A[1], depth+1)
+		if kb && b {
+			return true, true
+		}
+		return false, ka && kb
+	case OpIte:
+		c, kc := in.triBool(t.A[0], depth+1)
+		if kc {
+			if c {
+				return in.triBool(t.A[1], depth+1)
+			}
+			return in.triBool(t.A[2], depth+1)
+		}
+	case OpEq:
+		if t.A[0].W == 0 {
+			a, ka := in.triBool(t.A[0], depth+1)
+			b, kb := in.triBool(t.A[1], depth+1)
+			if ka && kb {
+				return a == b, true
+			}
+			return false, false
+		}
+		a, ka := in.triVal(t.A[0], depth+1)
+		b, kb := in.triVal(t.A[1], depth+1)
+		if ka && kb {
+			return a == b, true
+		}
+	case OpUlt, OpUle, OpSlt, OpSle:
+		a, ka := in.triVal(t.A[0], depth+1)
+		b, kb := in.triVal(t.A[1], depth+1)
+		if ka && kb {
+			w := t.A[0].W
+			switch t.Op {
+			case OpUlt:
+				return a < b, true
+			case OpUle:
+				return a <= b, true
+			case OpSlt:
+				return sext(a, w) < sext(b, w), true
+			case OpSle:
+				return sext(a, w) <= sext(b, w), true
+			}
+		}
+	}
+	return false, false
+}
+
+func (in *Interp) triVal(t *Term, depth int) (uint64, bool) {
+	if t.IsConst() {
+		return t.Val, true
+	}
+	if v, ok := in.fv[t.ID]; ok {
+		return v, true
+	}
+	if depth > 12 {
+		return 0, false
+	}
+	switch t.Op {
+	case OpIte:
+		c, kc := in.triBool(t.A[0], depth+1)
+		if kc {
+			if c {
+				return in.triVal(t.A[1], depth+1)
+			}
+			return in.triVal(t.A[2], depth+1)
+		}
+	case OpZext, OpExtract:
+		v, k := in.triVal(t.A[0], depth+1)
+		if k {
+			return v & mask(t.W), true
+		}
+	case OpSext:
+		v, k := in.triVal(t.A[0], depth+1)
+		if k {
+			return uint64(sext(v, t.A[0].W)) & mask(t.W), true
+		}
+	case OpAdd, OpSub, OpBAnd, OpBOr, OpBXor:
+		a, ka := in.triVal(t.A[0], depth+1)
+		b, kb := in.triVal(t.A[1], depth+1)
+		if ka && kb {
+			return foldBin(t.Op, t.W, a, b)
+		}
+	}
+	return 0, false
+}
+
+func (in *Interp) pushSibling(d int32, model map[string]uint64) {
+	sib := make([]int32, len(in.decisions)+1)
+	copy(sib, in.decisions)
+	sib[len(in.decisions)] = d
+	in.siblings = append(in.siblings, workItem{prefix: sib, model: model})
 }
 
 func (in *Interp) branch(c *Term) bool {
@@ -117,6 +283,9 @@ func (in *Interp) branch(c *Term) bool {
 	}
 	if c.IsConst() {
 		return c.Val == 1
+	}
+	if v, known := in.triBool(c, 0); known {
+		return v
 	}
 	if in.pos < len(in.prefix) {
 		d := in.prefix[in.pos]
@@ -130,29 +299,58 @@ func (in *Interp) branch(c *Term) bool {
 		return false
 	}
 	in.H.stats.addTransitions(1)
-	rT, _ := in.sol.Check(c, nil)
+	nc := in.tf.Not(c)
+	if in.model != nil {
+		side := EvalTerm(c, in.model, in.modelMemo) == 1
+		other := nc
+		if !side {
+			other = c
+		}
+		r, m := in.sol.Check(other, in.vars)
+		if r == Unknown {
+			in.unknownFeas = true
+			m = nil
+		}
+		if r != Unsat {
+			if side {
+				in.pushSibling(0, m)
+			} else {
+				in.pushSibling(1, m)
+			}
+		}
+		in.pos++
+		if side {
+			in.decisions = append(in.decisions, 1)
+			in.addPC(c)
+		} else {
+			in.decisions = append(in.decisions, 0)
+			in.addPC(nc)
+		}
+		return side
+	}
+	rT, mT := in.sol.Check(c, in.vars)
 	if rT == Unknown {
 		in.unknownFeas = true
 	}
 	if rT == Unsat {
 		in.pos++
 		in.decisions = append(in.decisions, 0)
-		in.addPC(in.tf.Not(c))
+		in.addPC(nc)
 		return false
 	}
-	nc := in.tf.Not(c)
-	rF, _ := in.sol.Check(nc, nil)
+	rF, mF := in.sol.Check(nc, in.vars)
 	if rF == Unknown {
 		in.unknownFeas = true
+		mF = nil
 	}
 	if rF != Unsat {
-		sib := make([]int32, len(in.decisions)+1)
-		copy(sib, in.decisions)
-		sib[len(in.decisions)] = 0
-		in.siblings = append(in.siblings, sib)
+		in.pushSibling(0, mF)
 	}
 	in.pos++
 	in.decisions = append(in.decisions, 1)
+	if rT == Sat {
+		in.setModel(mT)
+	}
 	in.addPC(c)
 	return true
 }
@@ -170,10 +368,7 @@ func (in *Interp) choose(n int) int {
 	}
 	in.H.stats.addTransitions(1)
 	for i := n - 1; i >= 1; i-- {
-		sib := make([]int32, len(in.decisions)+1)
-		copy(sib, in.decisions)
-		sib[len(in.decisions)] = int32(i)
-		in.siblings = append(in.siblings, sib)
+		in.pushSibling(int32(i), in.model)
 	}
 	in.pos++
 	in.decisions = append(in.decisions, 0)
@@ -187,12 +382,25 @@ func (in *Interp) assume(c *Term) {
 	if c.IsFalse() {
 		in.abort(OInfeasible, "assume false")
 	}
-	r, _ := in.sol.Check(c, nil)
+	if v, known := in.triBool(c, 0); known {
+		if !v {
+			in.abort(OInfeasible, "assume false (facts)")
+		}
+		return
+	}
+	if in.model != nil && EvalTerm(c, in.model, in.modelMemo) == 1 {
+		in.addPC(c)
+		return
+	}
+	r, m := in.sol.Check(c, in.vars)
 	if r == Unsat {
 		in.abort(OInfeasible, "assume unsat")
 	}
 	if r == Unknown {
 		in.unknownFeas = true
+		in.model = nil
+	} else {
+		in.setModel(m)
 	}
 	in.addPC(c)
 }
@@ -265,7 +473,7 @@ func (in *Interp) concretizeInt(t *Term, signed bool) int64 {
 			sib := make([]int32, base+3)
 			copy(sib, in.decisions[:base+2])
 			sib[base+2] = 0
-			in.siblings = append(in.siblings, sib)
+			in.siblings = append(in.siblings, workItem{prefix: sib})
 		}
 		in.H.stats.addTransitions(1)
 		in.pos++
